@@ -207,6 +207,11 @@ where
             if g.abs_aff(&n) != Some(g.neg[*ai] as usize) {
                 return Err(Fail::new(format!("{}: affine negate wrong", name)));
             }
+            let mut np = a.into_projective();
+            np.negate();
+            if n != np.into_affine() || (*ai == 0 && n != *a) {
+                return Err(Fail::new(format!("{}: the negation of an affine point does not compare equal (==) to the same point obtained by projective negation and conversion", name)));
+            }
             let p = a.into_projective();
             if g.abs(&p) != Some(*ai) {
                 return Err(Fail::new(format!("{}: into_projective changed the point", name)));
